@@ -303,6 +303,18 @@ pub fn scratch_base() -> PathBuf {
     root.join(format!("vsim-{}-{}", std::process::id(), n))
 }
 
+/// How the directory of a physical filesystem is named and spelled: mostly plain, sometimes with
+/// a name that is not valid UTF-8, sometimes with a `..` component in the spelling handed to
+/// PhysicalFS::new. Returns (directory name, spelled through "via/..").
+pub fn phys_root_variant(order_seed: u64, id: u16) -> (std::ffi::OsString, bool) {
+    use std::os::unix::ffi::OsStringExt;
+    match crate::rng::mix(order_seed, 0x9007 + id as u64) % 10 {
+        0 => (std::ffi::OsString::from_vec(b"ro\xFFot".to_vec()), false),
+        1 => (std::ffi::OsString::from("root"), true),
+        _ => (std::ffi::OsString::from("root"), false),
+    }
+}
+
 pub const SENTINELS: [(&str, &[u8]); 3] = [
     ("outside.txt", b"SENTINEL-OUTSIDE-0f3a"),
     ("roo", b"SENTINEL-PREFIX-77c1"),
@@ -395,7 +407,10 @@ impl Built {
                 };
                 names.sort();
                 let mut want: Vec<String> = SENTINELS.iter().map(|s| s.0.to_string()).collect();
-                want.push("root".into());
+                want.push(d.file_name().map(|f| f.to_string_lossy().to_string()).unwrap_or_default());
+                if outer.join("via").is_dir() {
+                    want.push("via".into());
+                }
                 want.sort();
                 if names != want {
                     return Some(format!("entries beside the physical root changed: {:?}", names));
@@ -458,7 +473,9 @@ impl Builder {
             }
             Spec::Phys { .. } if self.reuse.is_some() => {
                 let dir = self.reuse.as_ref().unwrap()[id as usize].phys_dir.clone().ok_or("restart: physical node without directory")?;
-                let r = VfsPath::new(SimFS::new(PhysicalFS::new(&dir), id, self.ctl.clone()));
+                let (name, via) = phys_root_variant(self.ctl.order_seed.load(Ordering::Relaxed), id);
+                let spelled = if via { dir.parent().unwrap().join("via").join("..").join(&name) } else { dir.clone() };
+                let r = VfsPath::new(SimFS::new(PhysicalFS::new(&spelled), id, self.ctl.clone()));
                 ("phys", r, Some(dir), None)
             }
             Spec::Mem { pre } => {
@@ -473,12 +490,19 @@ impl Builder {
                     self.base = Some(b);
                 }
                 let outer = self.base.as_ref().unwrap().join(format!("n{}", id));
-                let dir = outer.join("root");
+                let (name, via) = phys_root_variant(self.ctl.order_seed.load(Ordering::Relaxed), id);
+                let dir = outer.join(&name);
                 std::fs::create_dir_all(&dir).map_err(|e| e.to_string())?;
                 for (name, bytes) in SENTINELS.iter() {
                     std::fs::write(outer.join(name), bytes).map_err(|e| e.to_string())?;
                 }
-                let r = VfsPath::new(SimFS::new(PhysicalFS::new(&dir), id, self.ctl.clone()));
+                let spelled = if via {
+                    std::fs::create_dir_all(outer.join("via")).map_err(|e| e.to_string())?;
+                    outer.join("via").join("..").join(&name)
+                } else {
+                    dir.clone()
+                };
+                let r = VfsPath::new(SimFS::new(PhysicalFS::new(&spelled), id, self.ctl.clone()));
                 self.ctl.quiet(|| apply_pre(&r, pre))?;
                 ("phys", r, Some(dir), None)
             }
